@@ -55,6 +55,32 @@ def run(unit, em):
                 if pi is not None:
                     seq.append(pi)
             txt = unit.text(c, 90)
+            # clause `verbatim`: an operand is handed on as it was given — not a local of the parameter's own type that was
+            # recomputed from it ("normalised", filtered, re-keyed) on the way to the same-named core operation
+            from .prov import origins, var_table
+            vt = var_table(fn)
+            passed = set(seq)
+            for a in c.get('args', []):
+                sa = strip(a)
+                if sa is None or sa['k'] != 'DeclRefExpr' or sa.get('dk') != 'local' or sa.get('d') not in vt:
+                    continue
+                lt = unit.ty(vt[sa['d']]['decl']).replace('const ', '').replace('&', '').strip()
+                o = origins(fn, sa)
+                # a container local is also fed by the arguments of the mutating calls made on it
+                for m_ in fn.calls():
+                    if m_['k'] == 'CXXMemberCallExpr' and not m_.get('const') and (strip(m_.get('obj')) or {}).get('d') == sa['d']:
+                        for a2 in m_.get('args') or []:
+                            o |= origins(fn, a2)
+                for _ in range(2):
+                    for d_ in list(o):
+                        v_ = vt.get(d_)
+                        if v_ and v_['kind'] == 'rangevar' and v_['node'].get('range') is not None:
+                            o |= origins(fn, v_['node']['range'])
+                for i, p in enumerate(fn.params):
+                    pt = unit.tname(p['t']).replace('const ', '').replace('&', '').strip() if 't' in p else ''
+                    if i not in passed and p['d'] in o and pt == lt and lt and not lt.startswith(('unsigned', 'int', 'bool', 'size_t', 'long')):
+                        em.violation(c, txt + ' [%s]' % p['n'], 'the core operation is not given the parameter `%s` but the local `%s` of the same type that was recomputed from it: the wrapper changes the operand '
+                                     'on the way, so the public operation is no longer the core operation applied to what the caller passed' % (p['n'], sa.get('n')), 'verbatim')
             if len(seq) < 1:
                 em.ok(c, txt, 'no parameter to forward', 'order')
                 continue
